@@ -6,11 +6,11 @@ from . import c08
 SCHEMES = ['https', 'http', 'file', 'git+https', 'git+ssh', 'hg+static-http', 'svn+svn', 'bzr+lp', 'ftp', 'a+b', 'C', 'x-y.z', 's3', 'HTTPS']
 URL_TAILS = ['//h/p', '//h/p.whl', '///a/b', '//localhost/abs/dir/p.whl', '//localhost', '//u:pw@h:8080/p?q=1#f', '//h/${HOME}/p', 'p', '//h/[x]/p', '//h/p@v1', '\\path', '//h/a%20b']
 PATHS = ['./p', '../up/p.whl', '/abs/p', '/abs/dir/', 'rel/p', 'rel\\p', '.hidden', '.', '..', './a b', '\\\\unc\\p', '/p.tar.gz', './${HOME}/p', 'a/b@c', './p#frag', '~/p', 'dir.d/p']
-NAMES = ['foo', 'requests-2.26.0', 'Foo_Bar', 'a', 'x.y', 'pkg-1.0-py3-none-any']
+NAMES = ['foo', 'requests-2.26.0', 'Foo_Bar', 'a', 'x.y', 'pkg-1.0-py3-none-any', 'torch-2.1.0+cu118-cp310-cp310-linux_x86_64', 'pkg-1.0+local']
 EXTS = ['.whl', '.tbz', '.txz', '.tlz', '.zip', '.tgz', '.tar', '.tar.bz2', '.tar.xz', '.tar.lz', '.tar.lzma', '.tar.gz']
 NON_EXTS = ['.gz', '.txt', '.tar.txt', '.whl.txt', '', '.egg', '.bz2']
 SUFFIXES = ['', '[a]', '[a,b]', ' ; os_name == "a"', "[a] ; python_version >= '3.8'", ' ;os_name=="a"', '[ a , B_c ]', " ; extra == 'x' and os_name != 'b'",
-            '  ; os_name == "a"', "[a,b]  ; python_version >= '3.8'", ' \t; os_name == "a"', "[a]\t \t;os_name=='a'", '  ', '[a] \t']
+            '  ; os_name == "a"', "[a,b]  ; python_version >= '3.8'", ' \t; os_name == "a"', "[a]\t \t;os_name=='a'", '  ', '[a] \t', '[]', '[ ]', "[] ; python_version >= '3.8'"]
 
 
 def run(ctx):
@@ -34,7 +34,8 @@ def run(ctx):
         for e in EXTS:
             cases.append(('archive', n + e))
         for e in NON_EXTS:
-            cases.append(('plain-name', n + e))
+            if '+' not in n:          # the negative control needs a valid package name
+                cases.append(('plain-name', n + e))
     if quick:
         keep = [c for c in cases if c[0] != 'url' or c[1].startswith('file://localhost')] + ctx.rng.sample([c for c in cases if c[0] == 'url'], 60)
         cases = keep
@@ -66,8 +67,14 @@ def run(ctx):
                     elif ' ' in base or (cls == 'url' and not scheme_wf(base.split(':')[0])):
                         pass        # first token is not the whole path / not a well-formed scheme: any rejection will do
                     elif kind not in ('unsupported-path', 'unsupported-url'):
+                        # tracked finding F17: the recognition reads the first white-space-delimited token; when the first blank of the input lies
+                        # inside the extras brackets and the archive name is not a valid package name up to its extension, the token is `name.whl[`
+                        import re
+                        mws = re.search(r'\s', text)
+                        inside = mws is not None and text[:mws.start()].count('[') > text[:mws.start()].count(']')
+                        fcls = 'archive-spaced-extras' if (cls == 'archive' and inside and '+' in base) else None
                         ctx.failure('%r (%s) is rejected with %r, not with the dedicated unsupported-requirement kind' % (text, cls, io[1:4]),
-                                    {'entry': 'Requirement::from_str', 'input': text, 'class': cls})
+                                    {'entry': 'Requirement::from_str', 'input': text, 'class': cls}, fcls)
                 if ext and cls != 'plain-name':
                     unnamed_case(ctx, sess, keys, rm, cls, base, suf, wd)
         ctx.extra['oracle_table_fills' + ('_ext' if ext else '')] = rm.misses
@@ -122,7 +129,7 @@ def unnamed_case(ctx, sess, keys, rm, cls, base, suf, wd):
         want_extras = []
         if suf.startswith('['):
             import re
-            want_extras = [re.sub(r'[-_.]+', '-', e.strip()).lower() for e in suf[1:suf.index(']')].split(',')]
+            want_extras = [re.sub(r'[-_.]+', '-', e.strip()).lower() for e in suf[1:suf.index(']')].split(',') if e.strip()]
         if [unS(e) for e in r[3]] != want_extras:
             ctx.failure('%s(%r): extras %r, expected %r' % (entry, text, [unS(e) for e in r[3]], want_extras), {'entry': entry, 'input': text})
         mtext = suf.split(';', 1)[1] if ';' in suf else None
